@@ -34,7 +34,7 @@ inductive ChainOK (P : Params α) (items : List (Item α)) (lineW : α) (tol : O
   | fallback (c p : ND α) (rest : List (ND α)) :
       fb = true →
       legalAt P items c.pos = true → c.line = p.line + 1 → (p.pos < c.pos ∨ rest = []) →
-      (c.w, c.y, c.z) = pre items (c.pos + 1) → c.width = c.w → c.ratio = k 0 → c.fit = 1 →
+      (c.w, c.y, c.z) = sumsAfter P items c.pos → c.width = widthAt items c.pos → c.ratio = k 0 → c.fit = 1 →
       c.dem = p.dem + k 1000 →
       ChainOK P items lineW tol fb (p :: rest) → ChainOK P items lineW tol fb (c :: p :: rest)
 
@@ -72,7 +72,9 @@ structure Inv (P : Params α) (items : List (Item α)) (lineW : α) (tol : Optio
   ne : lb.act ≠ []
   last : ∀ f, f + 1 = b → forcedAt P items f = true → legalAt P items f = true →
     ∀ n, n ∈ lb.act → n.d.pos = f ∧ n.anc ≠ []
-  forced : lb.ovf = false → ∀ n, n ∈ lb.act → ∀ f, f < b → forcedAt P items f = true →
+  forced : ∀ n, n ∈ lb.act → ∀ f, f < b → forcedAt P items f = true →
+    legalAt P items f = true → f ∈ nonRootPos (n.d :: n.anc)
+  forcedI : ∀ n, n ∈ lb.inact → ∀ f, f + 1 < b → forcedAt P items f = true →
     legalAt P items f = true → f ∈ nonRootPos (n.d :: n.anc)
   ntol : lb.nextTol = none ∨ ∃ r, lb.nextTol = some r ∧ ltTol tol r = true ∧ InS P items lineW r
 
@@ -151,12 +153,44 @@ theorem legalAt_eq (P : Params α) (items : List (Item α)) (b : Nat) (it : Item
     simpa using this.symm
   simp only [this]
 
+/-- what the first half of the iteration adds to the running sums (a box's width) -/
+def boxAdd (s : α × α × α) (it : Item α) : α × α × α :=
+  if it.ty = Ty.box then (s.1 + it.width, s.2.1, s.2.2) else s
+
+/-- what the end of the iteration adds (the glue's own width, stretch, shrink) -/
+def glueAdd (s : α × α × α) (it : Item α) : α × α × α :=
+  if it.ty = Ty.glue then (s.1 + it.width, s.2.1 + it.stretch, s.2.2 + it.shrink) else s
+
+theorem glueAdd_boxAdd (s : α × α × α) (it : Item α) : glueAdd (boxAdd s it) it = addItem s it := by
+  unfold glueAdd boxAdd addItem
+  cases h : it.ty <;> simp
+
+theorem boxAdd_of_not_box (s : α × α × α) (it : Item α) (h : it.ty ≠ Ty.box) : boxAdd s it = s := by
+  unfold boxAdd; rw [if_neg h]
+
+theorem addGlue_spec (it : Item α) (lb : LB α) :
+    ((addGlue it lb).W, (addGlue it lb).Y, (addGlue it lb).Z) = glueAdd (lb.W, lb.Y, lb.Z) it ∧
+    (addGlue it lb).act = lb.act ∧ (addGlue it lb).inact = lb.inact ∧ (addGlue it lb).nextTol = lb.nextTol ∧
+    (addGlue it lb).ovf = lb.ovf := by
+  unfold addGlue glueAdd
+  split <;> exact ⟨rfl, rfl, rfl, rfl, rfl⟩
+
+theorem legalAt_not_box {P : Params α} {items : List (Item α)} {b : Nat} {it : Item α}
+    (hit : items[b]? = some it) (h : legalAt P items b = true) : it.ty ≠ Ty.box := by
+  unfold legalAt at h
+  rw [hit] at h
+  simp only at h
+  unfold legalLocal at h
+  intro hb
+  rw [hb] at h
+  cases h
+
 theorem itemStep_cases (P : Params α) (items : List (Item α)) (lineW : α) (tol : Option α) (b : Nat)
     (it : Item α) (rest : List (Item α)) (lb lb1 : LB α) (hdrop : items.drop b = it :: rest)
     (h : itemStep P items lineW tol b (prevOf items b) it rest lb = some lb1) :
     ∃ lbm, ((legalAt P items b = false ∧ lbm = lb) ∨
         (legalAt P items b = true ∧ lbm = mainLoop P items lineW tol b it rest lb)) ∧
-      (lb1.W, lb1.Y, lb1.Z) = addItem (lbm.W, lbm.Y, lbm.Z) it ∧ lb1.act = lbm.act ∧
+      (lb1.W, lb1.Y, lb1.Z) = boxAdd (lbm.W, lbm.Y, lbm.Z) it ∧ lb1.act = lbm.act ∧
       lb1.inact = lbm.inact ∧ lb1.nextTol = lbm.nextTol ∧ lb1.ovf = lbm.ovf := by
   have hleg := legalAt_eq P items b it rest hdrop
   unfold legalLocal at hleg
@@ -166,7 +200,7 @@ theorem itemStep_cases (P : Params α) (items : List (Item α)) (lineW : α) (to
     rw [hty] at h hleg
     simp only at h hleg
     cases h
-    exact ⟨lb, Or.inl ⟨hleg, rfl⟩, by simp [addItem, hty], rfl, rfl, rfl, rfl⟩
+    exact ⟨lb, Or.inl ⟨hleg, rfl⟩, by simp [boxAdd, hty], rfl, rfl, rfl, rfl⟩
   | penalty =>
     rw [hty] at h hleg
     simp only at h hleg
@@ -174,11 +208,11 @@ theorem itemStep_cases (P : Params α) (items : List (Item α)) (lineW : α) (to
     · simp only [hp, if_true] at h
       cases h
       refine ⟨_, Or.inr ⟨by simpa using (by simpa [hp] using hleg), rfl⟩, ?_, rfl, rfl, rfl, rfl⟩
-      simp [addItem, hty, mainLoop]
+      simp [boxAdd, hty]
     · simp only [hp, if_false] at h
       cases h
       refine ⟨lb, Or.inl ⟨by simpa [hp] using hleg, rfl⟩, ?_, rfl, rfl, rfl, rfl⟩
-      simp [addItem, hty]
+      simp [boxAdd, hty]
   | glue =>
     rw [hty] at h hleg
     simp only at h hleg
@@ -196,17 +230,17 @@ theorem itemStep_cases (P : Params α) (items : List (Item α)) (lineW : α) (to
         · rw [if_pos hnx] at h
           cases h
           refine ⟨_, Or.inr ⟨by simpa [hnx] using hleg, rfl⟩, ?_, rfl, rfl, rfl, rfl⟩
-          simp [addItem, hty]
+          simp [boxAdd, hty]
         · rw [if_neg hnx] at h
           cases h
           refine ⟨lb, Or.inl ⟨by simpa [hnx] using hleg, rfl⟩, ?_, rfl, rfl, rfl, rfl⟩
-          simp [addItem, hty]
+          simp [boxAdd, hty]
     | false =>
       rw [hpb] at h hleg
       rw [if_neg (by simp)] at h
       rw [Bool.false_and] at hleg
       cases h
-      exact ⟨lb, Or.inl ⟨hleg, rfl⟩, by simp [addItem, hty], rfl, rfl, rfl, rfl⟩
+      exact ⟨lb, Or.inl ⟨hleg, rfl⟩, by simp [boxAdd, hty], rfl, rfl, rfl, rfl⟩
 
 /-! ### node lemmas -/
 
@@ -238,7 +272,7 @@ theorem chain_isT {P : Params α} {items : List (Item α)} {lineW : α} {tol : O
   | normal _ p rest it h1 h2 h3 h4 h5 h6 h7 h8 h9 h10 =>
     right; exact ⟨c.pos, legalAt_lt h1, Or.inl h5⟩
   | fallback _ p rest h0 h1 h2 h3 h4 h5 h6 h7 h8 h9 =>
-    right; exact ⟨c.pos, legalAt_lt h1, Or.inr h4⟩
+    right; exact ⟨c.pos, legalAt_lt h1, Or.inl h4⟩
 
 theorem emitted_nodeOK {P : Params α} {items : List (Item α)} {lineW : α} {tol : Option α} {b : Nat}
     {it : Item α} {rest : List (Item α)} {lb : LB α} (hdrop : items.drop b = it :: rest)
@@ -265,9 +299,9 @@ theorem emitted_nodeOK {P : Params α} {items : List (Item α)} {lineW : α} {to
   · simp only [mlCx] at hr
     rw [← hW, ← hY, ← hZ]; exact hr
 
-theorem fallbackNodes_mem (b : Nat) (W Y Z mw : α) (n : Node α) :
-    ∀ l : List (Node α), n ∈ fallbackNodes b W Y Z mw l →
-      ∃ p, p ∈ l ∧ n = ⟨⟨b, p.d.line + 1, 1, W, W, Y, Z, k 0, p.d.dem + k 1000⟩, p.d :: p.anc⟩ := by
+theorem fallbackNodes_mem (b : Nat) (width : α) (s : α × α × α) (W mw : α) (n : Node α) :
+    ∀ l : List (Node α), n ∈ fallbackNodes b width s W mw l →
+      ∃ p, p ∈ l ∧ n = ⟨⟨b, p.d.line + 1, 1, width, s.1, s.2.1, s.2.2, k 0, p.d.dem + k 1000⟩, p.d :: p.anc⟩ := by
   intro l
   induction l with
   | nil => intro h; simp [fallbackNodes] at h
@@ -303,8 +337,8 @@ theorem minWidthOf_some (W : α) : ∀ (l : List (Node α)) (x : α), ∃ y, min
   | nil => intro x; exact ⟨x, rfl⟩
   | cons p rest ih => intro x; simp only [minWidthOf]; exact ih _
 
-theorem fallbackNodes_ne (hrefl : ∀ a : α, (a == a) = true) (b : Nat) (W Y Z mw : α) (q : Node α) :
-    ∀ l : List (Node α), q ∈ l → mw = W - q.d.w → fallbackNodes b W Y Z mw l ≠ [] := by
+theorem fallbackNodes_ne (hrefl : ∀ a : α, (a == a) = true) (b : Nat) (width : α) (s : α × α × α) (W mw : α)
+    (q : Node α) : ∀ l : List (Node α), q ∈ l → mw = W - q.d.w → fallbackNodes b width s W mw l ≠ [] := by
   intro l
   induction l with
   | nil => intro h; cases h
@@ -318,13 +352,14 @@ theorem fallbackNodes_ne (hrefl : ∀ a : α, (a == a) = true) (b : Nat) (W Y Z 
       · rw [hm] at hne; exact absurd (hrefl _) hne
       · exact ih hq hm
 
-theorem drastic_cases (tol : Option α) (b : Nat) (lb1 lb2 : LB α) (h : drastic tol b lb1 = some lb2) :
+theorem drastic_cases (P : Params α) (tol : Option α) (b : Nat) (it : Item α) (rest : List (Item α))
+    (lb1 lb2 : LB α) (h : drastic P tol b it rest lb1 = some lb2) :
     (lb1.act ≠ [] ∧ lb2 = lb1) ∨
     (lb1.act = [] ∧ lb2.ovf = true ∧ lb2.W = lb1.W ∧ lb2.Y = lb1.Y ∧ lb2.Z = lb1.Z ∧ lb2.inact = lb1.inact ∧
       lb2.nextTol = lb1.nextTol ∧
       ((minWidthOf lb1.W lb1.inact none = none ∧ lb2.act = []) ∨
        ∃ mw, minWidthOf lb1.W lb1.inact none = some mw ∧
-         lb2.act = fallbackNodes b lb1.W lb1.Y lb1.Z mw lb1.inact)) := by
+         lb2.act = fallbackNodes b (mlWidth it lb1) (mlS P it rest lb1) lb1.W mw lb1.inact)) := by
   unfold drastic at h
   cases hact : lb1.act with
   | cons x xs =>
